@@ -474,7 +474,13 @@ func c09History(r *vkit.Run, caseNo int, rg *vkit.Rand) {
 				// twice. The property only demands that over-limit writes are rejected, so the
 				// "rejected ⇒ could have exceeded" bound is applied only when no snapshotter runs
 				// in this phase — DESIGN Appendix C, correction 3.)
-				if res == "limit" && !snapActive.Load() && atomic.LoadUint64(&calledBytes)+uint64(len(keys)*16) <= limit {
+				// (key bytes are held once in the hot store and once more in a snapshot that is
+				// in flight or retained after a failed write)
+				keyBytes := 0
+				for _, k := range keys {
+					keyBytes += len(k)
+				}
+				if res == "limit" && !snapActive.Load() && atomic.LoadUint64(&calledBytes)+uint64(2*keyBytes) <= limit {
 					fail("limit_rule", map[string]string{"phase": "concurrent", "got": res}, fmt.Sprintf("rejected although all bytes ever offered (%d) fit the limit %d", atomic.LoadUint64(&calledBytes), limit))
 				}
 			}
